@@ -73,6 +73,9 @@ func calculateCurrentAge(
 	ageVal := 0
 	if ageStr := h.Get("Age"); ageStr != "" {
 		ageVal, _ = strconv.Atoi(ageStr)
+		// Negative values are invalid; values too large to represent saturate
+		// instead of wrapping around (RFC9111 §1.2.2).
+		ageVal = int(min(max(int64(ageVal), 0), maxDeltaSeconds))
 	}
 	apparentAge := max(responseTime.Sub(date), 0)
 	responseDelay := max(responseTime.Sub(requestTime), 0)
@@ -86,6 +89,11 @@ func calculateCurrentAge(
 }
 
 const maxDuration = 1<<63 - 1
+
+// maxDeltaSeconds is the largest delta-seconds value used in calculations
+// (about 146 years, well above the 2^31 seconds required by RFC9111 §1.2.2).
+// It is chosen so that the sum of two such durations does not overflow.
+const maxDeltaSeconds = int64(maxDuration / 2 / time.Second)
 
 // FreshnessCalculator describes the interface implemented by types that can
 // calculate the freshness of a cached response based on request and response
